@@ -20,6 +20,9 @@ def main():
         if prop in JOB:
             import jobcheck
             violations = jobcheck.run(prop, a.tier, a.replay)
+        elif prop == "C05":
+            import clicheck
+            violations = clicheck.run(prop, a.tier, a.replay)
         elif prop == "C13":
             import fscheck
             violations = fscheck.run(prop, a.tier, a.replay)
